@@ -36,8 +36,9 @@ def list_jobs():
     jobs.append(("effects:ModelingUpdate.__init__", "effects"))
     jobs.append(("chain:optimize_attr_updates_chain", "chain"))
     jobs += [(j, "timebuilder") for j in TIMEBUILDER_JOBS]
-    from . import graph_jobs
+    from . import graph_jobs, lookup_jobs
     jobs += graph_jobs.list_jobs()
+    jobs += lookup_jobs.list_jobs()
     return jobs
 
 
@@ -207,6 +208,9 @@ def run(job_id, st, rlimit):
     if job_id.startswith("effects:"): return effects_job(job_id, st, rlimit)
     if job_id.startswith("chain:"): return chain_job(job_id, st, rlimit)
     if job_id.startswith("timebuilder:"): return timebuilder_job(job_id, st, rlimit)
+    if job_id.startswith("lookup:"):
+        from . import lookup_jobs
+        return lookup_jobs.run(job_id, st, rlimit)
     if job_id.startswith("graph:"):
         from . import graph_jobs
         return graph_jobs.run(job_id, st, rlimit)
